@@ -162,3 +162,113 @@ def rule_py_slice_consumed(rep, floor=1):
     if n < 1:
         raise AnalysisError("no getitem_range(head.start, head.stop, ...) arm found")
     return r.done()
+
+
+def rule_py_last_wins(rep, floor=5):
+    r = rep.rule("LOOP.py-last-wins", "a name assigned on every iteration of a `for` loop from an expression over the loop variable and read after the loop carries a result for the whole collection only if the loop "
+                 "combines it with its previous value, hands each value on (append, yield, call argument, subscript store), or leaves (`break`/`return`) once it is decisive; a loop that merely tests it "
+                 "(`if out is not None and exception: raise`) and goes on returns the verdict of the last element alone (validity_error over partitions reported the last partition)", floor=floor)
+    n = 0
+    for rel in _mods():
+        m = pf.module(rel)
+        occ = {}
+        for fn in _funcs(m.tree):
+            for blk in _blocks(fn.body):
+                for i, lp in enumerate(blk):
+                    if not isinstance(lp, ast.For):
+                        continue
+                    tnames = {x.id for x in ast.walk(lp.target) if isinstance(x, ast.Name)}
+                    for s in lp.body:
+                        if not (isinstance(s, ast.Assign) and len(s.targets) == 1 and isinstance(s.targets[0], ast.Name) and isinstance(s.value, ast.Call)):
+                            continue
+                        v = s.targets[0].id
+                        if v in tnames or not any(isinstance(x, ast.Name) and x.id in tnames for x in ast.walk(s.value)):
+                            continue
+                        # read after the loop before being reassigned?
+                        read_after = False
+                        for t in blk[i + 1:]:
+                            if isinstance(t, ast.Assign) and any(isinstance(x, ast.Name) and x.id == v for tt in t.targets for x in ast.walk(tt)) and not any(isinstance(x, ast.Name) and x.id == v for x in ast.walk(t.value)):
+                                break
+                            if any(isinstance(x, ast.Name) and x.id == v and isinstance(x.ctx, ast.Load) for x in ast.walk(t)):
+                                read_after = True
+                                break
+                        if not read_after:
+                            continue
+                        n += 1
+                        occ[(fn.name, v)] = occ.get((fn.name, v), 0) + 1
+                        key = "%s:%s#%s%s" % (rel, fn.name, v, "" if occ[(fn.name, v)] == 1 else "@%d" % occ[(fn.name, v)])
+                        body_nodes = [x for st in lp.body for x in ast.walk(st)]
+                        leaves = any(isinstance(x, (ast.Break, ast.Return)) for x in body_nodes)
+                        combines = any(isinstance(x, ast.Assign) and any(isinstance(y, ast.Name) and y.id == v for tt in x.targets for y in ast.walk(tt)) and any(isinstance(y, ast.Name) and y.id == v for y in ast.walk(x.value)) for x in body_nodes) \
+                            or any(isinstance(x, ast.AugAssign) and isinstance(x.target, ast.Name) and x.target.id == v for x in body_nodes)
+                        # handed on: v appears outside the tests of if/assert/while statements and outside its own assignment
+                        test_ids = set()
+                        for x in body_nodes:
+                            if isinstance(x, (ast.If, ast.While, ast.Assert, ast.IfExp)):
+                                test_ids |= {id(y) for y in ast.walk(x.test)}
+                        for x in body_nodes:
+                            if isinstance(x, ast.Raise):          # an error message is not a result
+                                test_ids |= {id(y) for y in ast.walk(x)}
+                        handed = any(isinstance(x, ast.Name) and x.id == v and isinstance(x.ctx, ast.Load) and id(x) not in test_ids for x in body_nodes)
+                        # also assigned before the loop to something other than None (a default the loop refines) is no excuse: still last-wins
+                        r.check(leaves or combines or handed, key, m.where(s), "%s: %s keeps only the last iteration's `%s` (tested inside the loop, read after it, never combined, handed on or decisive)" % (rel, fn.name, v),
+                                detail="leaves" if leaves else "combines" if combines else "handed on")
+    if n < 5:
+        raise AnalysisError("only %d per-iteration results read after their loop found" % n)
+    return r.done()
+
+
+def rule_py_sibling_arm_args(rep, floor=2):
+    r = rep.rule("SIBLING.py-arm-arguments", "in a loop over the inputs whose `if isinstance(x, ..) / elif ..` arms each append the converted input to the same list, a method that two arms call on their way "
+                 "(`.project(nextmask)`, `.getitem_range_nowrap(a, b)`, `.carry(idx, False)`) is called with the same arguments in both: the arms produce pieces that are zipped together afterwards, so one arm "
+                 "projecting with the common mask and the other with its own (`x.project()`) misaligns them", floor=floor)
+    n = 0
+    for rel in _mods():
+        m = pf.module(rel)
+        occ = {}
+        for fn in _funcs(m.tree):
+            for lp in [x for x in ast.walk(fn) if isinstance(x, ast.For) and _owner_func(x) is fn]:
+                for st in lp.body:
+                    if not isinstance(st, ast.If):
+                        continue
+                    # the arms of the chain
+                    arms, cur = [], st
+                    while True:
+                        arms.append(cur.body)
+                        if len(cur.orelse) == 1 and isinstance(cur.orelse[0], ast.If):
+                            cur = cur.orelse[0]
+                        else:
+                            if cur.orelse:
+                                arms.append(cur.orelse)
+                            break
+                    if len(arms) < 2:
+                        continue
+                    per_arm = []
+                    target = None
+                    for body in arms:
+                        calls = {}
+                        for s2 in body:
+                            if isinstance(s2, ast.Expr) and isinstance(s2.value, ast.Call) and isinstance(s2.value.func, ast.Attribute) and s2.value.func.attr == "append" and isinstance(s2.value.func.value, ast.Name) and len(s2.value.args) == 1:
+                                lst = s2.value.func.value.id
+                                if target is None:
+                                    target = lst
+                                if lst != target:
+                                    continue
+                                for c in ast.walk(s2.value.args[0]):
+                                    if isinstance(c, ast.Call) and isinstance(c.func, ast.Attribute) and c.func.attr[:1].islower():     # methods, not constructors
+                                        calls.setdefault(c.func.attr, []).append(c)
+                        per_arm.append(calls)
+                    names = {k for a in per_arm for k in a}
+                    for nm in sorted(names):
+                        have = [a[nm] for a in per_arm if nm in a]
+                        if len(have) < 2:
+                            continue
+                        n += 1
+                        occ[(fn.name, nm)] = occ.get((fn.name, nm), 0) + 1
+                        sigs = {(tuple(ast.unparse(x) for x in c.args), tuple((k.arg, ast.unparse(k.value)) for k in c.keywords)) for cs_ in have for c in cs_}
+                        first = have[0][0]
+                        r.check(len(sigs) == 1, "%s:%s#%s%s" % (rel, fn.name, nm, "" if occ[(fn.name, nm)] == 1 else "@%d" % occ[(fn.name, nm)]), m.where(first),
+                                "%s: %s calls .%s with different arguments in sibling arms that append to `%s`: %s" % (rel, fn.name, nm, target, sorted(s_[0] for s_ in sigs)), detail="same arguments in %d arms" % len(have))
+    if n < 2:
+        raise AnalysisError("only %d methods shared by sibling appending arms found" % n)
+    return r.done()
